@@ -7,7 +7,7 @@ PLAIN_FLAGS = $(COMMON) -O2 -DNDEBUG
 ASAN_FLAGS = $(COMMON) -O1 -g -DTBFSIM_ASAN -fsanitize=address,undefined -fsanitize-recover=address -fno-sanitize-recover=undefined -fno-omit-frame-pointer
 
 CORE_SRC = sim/core.cpp sim/gompsim.cpp sim/probe.cpp sim/oracles.cpp sim/gen.cpp sim/recipes.cpp sim/main.cpp
-WORLD_SRC = sim/w_morton.cpp sim/w_periodic.cpp sim/w_hilbert.cpp sim/w_specx.cpp
+WORLD_SRC = sim/w_morton.cpp sim/w_periodic.cpp sim/w_hilbert.cpp sim/w_specx.cpp sim/w_starpu.cpp
 SRC = $(CORE_SRC) $(WORLD_SRC)
 
 PLAIN_OBJ = $(patsubst sim/%.cpp,$(BUILD)/plain/%.o,$(SRC))
@@ -24,6 +24,7 @@ $(BUILD)/tbfsim_asan: $(ASAN_OBJ)
 	$(CXX) -o $@ $^ -fsanitize=address,undefined -lpthread
 
 $(BUILD)/plain/w_specx.o $(BUILD)/asan/w_specx.o: EXTRA = -Isim/stubs/specx
+$(BUILD)/plain/w_starpu.o $(BUILD)/asan/w_starpu.o: EXTRA = -Isim/stubs/starpu
 
 $(BUILD)/plain/%.o: sim/%.cpp
 	@mkdir -p $(dir $@)
